@@ -24,6 +24,8 @@ class Tape:
         self.pos = 0
         self.record: List[int] = []
         self.labels: List[str] = []
+        self.spans: List[tuple] = []  # (start, end, count_pos): removable sub-structures
+        self._open: List[tuple] = []
 
     def draw(self, n: int, label: str = "") -> int:
         if n <= 1:
@@ -36,6 +38,19 @@ class Tape:
         self.record.append(v)
         self.labels.append(label)
         return v
+
+    def draw_count(self, n: int, label: str = "") -> tuple:
+        """Draw a repetition count; returns (value, position on the tape or None)."""
+        pos = len(self.record) if n > 1 else None
+        return self.draw(n, label), pos
+
+    def span_begin(self, count_pos: Optional[int] = None) -> None:
+        self._open.append((len(self.record), count_pos))
+
+    def span_end(self) -> None:
+        start, count_pos = self._open.pop()
+        if len(self.record) > start:
+            self.spans.append((start, len(self.record), count_pos))
 
     def chance(self, num: int, den: int, label: str = "") -> bool:
         """True with probability num/den; 0 on the tape means False."""
